@@ -324,25 +324,54 @@ func checkPremises(c *Ctx) {
 				}
 			}
 		}
-		admitted := globalSliceElems(c, "packets", "ipLayers")
-		okc := len(admitted) > 0
-		for _, a := range admitted {
-			if !handled[a] {
-				okc = false
-			}
-		}
-		// checkLayers' success path requires slices.Contains(ipLayers, GetIPLayer())
+		// what checkLayers admits for the IP layer on its success paths: membership in a package-level table, or equality with
+		// layer-type constants (possibly inside a predicate helper, which is opened)
+		admittedSet := map[string]bool{}
 		rps2, _ := core.ReturnPaths(c.P, cl, 2000)
 		req := len(rps2) > 0
 		for _, rp := range rps2 {
 			if !rp.Results[0].IsConst("nil") {
 				continue
 			}
-			f1, s1 := atomTrue(rp.Atoms, func(t *core.Term) bool {
-				return t.Op == "call" && strings.Contains(t.Name, "slices.Contains") && strings.Contains(t.String(), "@packets.ipLayers") && strings.Contains(t.String(), "GetIPLayer")
-			})
-			if !(f1 && s1) {
-				req = false
+			for _, atoms := range openPredicates(c.P, "packets", rp.Atoms) {
+				if !core.Feasible(atoms) {
+					continue
+				}
+				constrained := false
+				for _, a := range atoms {
+					nn := a.Norm()
+					t := nn.Cond
+					if !nn.Sign || !strings.Contains(t.String(), "GetIPLayer") {
+						continue
+					}
+					switch {
+					case t.Op == "call" && strings.Contains(t.Name, "slices.Contains"):
+						for _, arg := range t.Args {
+							if arg.Op == "global" || strings.HasPrefix(arg.String(), "@packets.") {
+								for _, e := range globalSliceElems(c, "packets", strings.TrimPrefix(arg.String(), "@packets.")) {
+									admittedSet[e] = true
+									constrained = true
+								}
+							}
+						}
+					case t.Op == "binop" && t.Name == "==" && t.Args[1].Op == "global":
+						admittedSet[t.Args[1].Name] = true
+						constrained = true
+					case t.Op == "binop" && t.Name == "==" && t.Args[0].Op == "global":
+						admittedSet[t.Args[0].Name] = true
+						constrained = true
+					}
+				}
+				if !constrained {
+					req = false
+				}
+			}
+		}
+		admitted := keysOf(admittedSet)
+		okc := len(admitted) > 0
+		for _, a := range admitted {
+			if !handled[a] {
+				okc = false
 			}
 		}
 		R.Check(okc && req, "R09.1", "packets.checkLayers#premise[ip-layers-handled]", cl.Pos(), core.FuncName(cl), fmt.Sprintf("checkLayers admits %v, all handled by GetIPPair %v", admitted, keysOf(handled)), fmt.Sprintf("checkLayers admits %v (required=%v) but GetIPPair handles %v: the GetIPPair failure is no longer infeasible", admitted, req, keysOf(handled)))
@@ -557,6 +586,16 @@ func checkRetryablePredicate(c *Ctx) {
 				okShape = false
 			}
 		}
+		targetOf := func(t *core.Term) string {
+			tgt := ""
+			t.Walk(func(x *core.Term) bool {
+				if x.Op == "alloc" {
+					tgt = x.Name
+				}
+				return true
+			})
+			return tgt
+		}
 		switch {
 		case res.IsConst("true"):
 			if len(pos) != 1 {
@@ -569,6 +608,13 @@ func checkRetryablePredicate(c *Ctx) {
 			if len(pos) != 0 || nneg < 2 {
 				okShape = false
 			}
+		case res.Op == "call" && res.Name == "errors.As":
+			// `return errors.As(err, &a) || errors.As(err, &b)`: the last disjunct is returned as it is; both of its outcomes
+			// are the two cases above
+			if len(pos) != 0 || nneg+1 < 2 {
+				okShape = false
+			}
+			seenTypes[targetOf(res)] = true
 		default:
 			okShape = false
 		}
